@@ -42,6 +42,8 @@ CLASS = {  # (file, line, first words of 'what') -> classification
  ("client/runtime.go",491,"Submit"): "nil dereference in Submit: the repository's client tests fail as well; crashed C13's schedule workers and race pass at first, now reported (panic, history/panic, panic-free-running)",
  ("client/runtime.go",450,"Submit"): "the lazily built client is never stored: nil dereference; the repository's client tests fail as well; crashed C13 at first, now reported",
  ("client/runtime.go",545,"SetLogger"): "logging only",
+ ("client/request.go",83,"isMultipart"): "every body without files becomes a pipe nobody writes: made C11 wait for hours at first; now reported (hang, form-unparseable, content-type-header/multipart) thanks to the two-stage hang horizon; every run also has a hard deadline now",
+ ("client/request.go",139,"buildHTTP"): "same family as the isMultipart mutant (the run was interrupted while C11 was blocked on it)",
  ("middleware/ui_options.go",169,"serveUI"): "Content-Type of the 404 of a UI middleware without next handler: the text fixes the status only",
 }
 rows=[]
